@@ -3,4 +3,7 @@ EXTENDS Heap
 KindsNB == {"node", "bound"}
 KindsN  == {"node"}
 KindsLeaky == {"node", "leaky"}
+MutAll == {"clone", "asroot", "drop", "link", "unlink"}
+MutDrop == {"drop"}
+MutDropLink == {"drop", "link"}
 ==============================================================================
